@@ -315,7 +315,10 @@ fn run_shard(
         {
             *outcome.known_hits.entry(sig.clone()).or_insert(0) += 1;
             let _ = fs::remove_file(&path);
-        } else if prop.abort_is_violation {
+        } else if prop.abort_is_violation || crash_signal(status.signal(), &stderr_all) {
+            // A reproducible crash of the worker (confirmed by the solo re-run) is a violation of
+            // every property: each of them promises a value. Hangs and refused allocations are
+            // violations only where the property is about termination / resources.
             outcome.violations.push(ViolationRec {
                 oracle,
                 sig,
@@ -336,6 +339,16 @@ fn run_shard(
             return outcome;
         }
         start_unit = unit + 1;
+    }
+}
+
+/// Did the code under test crash (as opposed to the CPU watchdog or the allocation limit of the
+/// harness stopping the worker)? Stack overflows and sanitizer reports arrive as SIGABRT.
+fn crash_signal(sig: Option<i32>, stderr: &str) -> bool {
+    match sig {
+        Some(libc::SIGSEGV) | Some(libc::SIGBUS) | Some(libc::SIGILL) | Some(libc::SIGFPE) => true,
+        Some(libc::SIGABRT) => !stderr.contains("memory allocation of"),
+        _ => false,
     }
 }
 
@@ -378,6 +391,7 @@ fn parent(prop_id: &str, tier: &str) -> i32 {
     fs::create_dir_all(&out_dir).expect("create run dir");
 
     let mut handles = vec![];
+    let mut extra_notes: Vec<String> = vec![];
     for s in 0..NSHARDS {
         let profile = profiles[(s as usize) % profiles.len()].to_string();
         let bin = bins[&profile].clone();
@@ -386,6 +400,17 @@ fn parent(prop_id: &str, tier: &str) -> i32 {
         handles.push(std::thread::spawn(move || {
             run_shard(&prop, tier, seed, s, &bin, &profile, &out_dir)
         }));
+    }
+    if props::has_unopt_shard(prop_id) {
+        if let Some(bin) = bins.get("unopt").cloned() {
+            let out_dir = out_dir.clone();
+            let prop = props::find(prop_id).unwrap();
+            handles.push(std::thread::spawn(move || {
+                run_shard(&prop, tier, seed, NSHARDS, &bin, "unopt", &out_dir)
+            }));
+        } else {
+            extra_notes.push("unoptimised build not available: scale oracles ran in the optimised profiles only".to_string());
+        }
     }
     let mut results = vec![];
     let mut hashes: HashSet<u64> = HashSet::new();
@@ -408,7 +433,7 @@ fn parent(prop_id: &str, tier: &str) -> i32 {
     let mut nontrivial_cases = 0u64;
     let mut counters: BTreeMap<String, u64> = BTreeMap::new();
     let mut samples: Vec<Value> = vec![];
-    let mut notes: Vec<String> = vec![];
+    let mut notes: Vec<String> = extra_notes;
     let mut exhaustive_parts: Vec<String> = vec![];
     let mut per_profile: BTreeMap<String, u64> = BTreeMap::new();
     let mut gen_defects: Vec<String> = vec![];
@@ -684,7 +709,7 @@ fn minimise_died(bin: &Path, path: &Path) {
     let hex = rf.case.pointer(ptr).unwrap().as_str().unwrap().to_string();
     let Some(mut bytes) = engine::hexbytes::from_hex(&hex) else { return };
     let tmp = path.with_extension("min.json");
-    let mut dies = |candidate: &[u8]| -> bool {
+    let dies = |candidate: &[u8]| -> bool {
         let mut rf2 = rf.clone();
         *rf2.case.pointer_mut(ptr).unwrap() = Value::String(engine::hexbytes::to_hex(candidate));
         if fs::write(&tmp, serde_json::to_string(&rf2).unwrap()).is_err() {
